@@ -200,20 +200,26 @@ class Folder:
                     k = self.class_attr(v.ci, body.attr)
             if k is not UNKNOWN and not isinstance(k, (ClassRef, FuncRef, Instance)):
                 try:
-                    rev.setdefault(k, name)
+                    rev[k] = name.lower()  # later members win, names are stored lower-cased (MapMeta.__new__)
                 except TypeError:
                     pass
         self._cache[key] = (by_name, rev)
         return by_name, rev
 
     def enum_lookup(self, ci: ClassInfo, k, default=None):
+        """MapMeta.get / __getitem__ as written in pycomm3/map.py (D19.1 / D19.2 check that implementation against this
+        reading): str keys are lower-cased, the merged table is names + lower-cased names + reverse keys (reverse keys win),
+        and str results are upper-cased when the table's own body sets _return_caps_only_."""
         by_name, rev = self.enum_tables(ci)
-        if isinstance(k, str):
-            return by_name.get(k.lower(), default)
+        kk = k.lower() if isinstance(k, str) else k
         try:
-            return rev.get(k, default)
+            val = rev[kk] if kk in rev else by_name.get(kk, default) if isinstance(kk, str) else default
         except TypeError:
-            return default
+            val = default
+        caps = ci.attrs.get("_return_caps_only_")
+        if caps is not None and self.eval(caps, ci.module, cls=ci) and isinstance(val, str):
+            val = val.upper()
+        return val
 
     # ----------------------------------------------------------------- eval
     def eval(self, node, module: Module, cls: Optional[ClassInfo] = None, env: Optional[dict] = None, func=None):
